@@ -44,6 +44,8 @@ PATCHES = {
     "jmplab": ("jmp L2\nP2:", {"P2": 2}, "jmp"),
     "cfi": ("pushq %rax\n.cfi_adjust_cfa_offset 8\npopq %rax\n.cfi_adjust_cfa_offset -8", {}, None),
     "symexpr": ("movq L2(%rip), %rax", {}, None),
+    # a patch whose first block loops back to its own start
+    "selfloop": ("PS:\ndecl %eax\njne PS", {"PS": 0}, "jcc"),
     # a RIP-relative operand FOLLOWED by an immediate (the PC-relative bias differs from the field's distance to the end of the
     # instruction), and an explicit addend
     # patches whose bytes are a PREFIX of the bytes they replace / of the bytes at the insertion point (b1 starts with 53 = push %rbx)
@@ -59,6 +61,10 @@ CFI_LAYOUTS = {
     "whole": {(0, 0): ["start", "cfa8"], (1, 1): ["adj8"], (1, 2): ["adj-8"], (2, 2): ["end"]},
     "b1only": {(1, 0): ["start", "cfa8"], (1, 2): ["rem", "adj8"], (1, "end"): ["rest", "end"]},
     "endatb1": {(0, 0): ["start", "cfa8"], (1, "end"): ["end"], (2, 0): ["start", "cfa8"], (2, 2): ["end"]},
+    # the procedure ends at the end of b1; b2 is NOT in any procedure (a CFI function directly followed by CFI-less code)
+    "b0b1": {(0, 0): ["start", "cfa8"], (1, "end"): ["end"]},
+    # b0 is outside; the procedure starts with b1 (CFI-less code directly followed by a CFI function)
+    "b1b2": {(1, 0): ["start", "cfa8"], (2, 2): ["end"]},
 }
 CFI_D = {"start": (".cfi_startproc", [], NULL_UUID), "end": (".cfi_endproc", [], NULL_UUID), "cfa8": (".cfi_def_cfa", [7, 8], NULL_UUID),
          "adj8": (".cfi_adjust_cfa_offset", [8], NULL_UUID), "adj-8": (".cfi_adjust_cfa_offset", [-8], NULL_UUID),
@@ -80,18 +86,22 @@ def insn_bounds(data):
 
 
 class Shape:
-    def __init__(self, kind="plain", funcs=True, cfi="none", ann="none", data_follows=False, callee2=False, bare_b1=False):
+    def __init__(self, kind="plain", funcs=True, cfi="none", ann="none", data_follows=False, callee2=False, bare_b1=False, gap=False):
         self.kind, self.funcs, self.cfi, self.ann, self.data_follows, self.callee2 = kind, funcs, cfi, ann, data_follows, callee2
+        self.gap = gap                  # two bytes covered by NO block at the start of the byte interval (the first block is not at interval offset 0)
         self.bare_b1 = bare_b1          # b1 carries no label of its own (labels reach it only by sliding from a deleted neighbour)
 
     def __repr__(self):
         return "shape(kind=%s funcs=%s cfi=%s ann=%s%s%s)" % (self.kind, self.funcs, self.cfi, self.ann, " data" if self.data_follows else "",
-                                                             (" callee-of-two-blocks" if self.callee2 else "") + (" b1-without-labels" if self.bare_b1 else ""))
+                                                             (" callee-of-two-blocks" if self.callee2 else "") + (" b1-without-labels" if self.bare_b1 else "") + (" leading-gap" if self.gap else ""))
 
 
 def build(shape):
     ir, m = create_test_module(gtirb.Module.FileFormat.ELF, gtirb.Module.ISA.X64)
     _, bi = add_text_section(m, address=0x1000)
+    if shape.gap:
+        bi.contents = b"\xcc\xcc"
+        bi.size = 2
     data, term = KINDS[shape.kind]
     b0 = add_code_block(bi, b"\x90")
     b1 = add_code_block(bi, data)
